@@ -53,3 +53,14 @@ func At(name string) {
 		f()
 	}
 }
+
+var skipped sync.Map
+
+// SetSkip makes the gated function `name` return immediately (true) or run normally (false).
+func SetSkip(name string, on bool) { skipped.Store(name, on) }
+
+// Skip is called by the gate inserted at the top of background-worker functions.
+func Skip(name string) bool {
+	v, ok := skipped.Load(name)
+	return ok && v.(bool)
+}
